@@ -314,14 +314,14 @@ Step(S, l) ==
     /\ path' = Append(path, IF Record THEN Obs(l, s') ELSE 0)   \* ~Record: a depth counter only
 
 \* pure getters: fresh cells in both variants, heap unchanged
-GetCurrent     == \E k \in Keys \cup {"ALL"} : Step(s, Lbl("get_current", k, 0, 0, FALSE))
-GetHistory     == \E k \in Keys : \E m \in {"stack", "flat"} :
+GetCurrent     == Getters /\ \E k \in Keys \cup {"ALL"} : Step(s, Lbl("get_current", k, 0, 0, FALSE))
+GetHistory     == Getters /\ \E k \in Keys : \E m \in {"stack", "flat"} :
                     /\ m = "flat" => (k \in AK /\ Len(H(s, k)) > 0)
                     /\ Step(s, Lbl("get_history", k, 0, IF m = "flat" THEN -1 ELSE 0, FALSE))
-GetHistoryIdx  == \E k \in Keys : \E i \in 1..Len(H(s, k)) : Step(s, Lbl("get_history", k, 0, i, FALSE))
-GetLastHistory == \E k \in Keys : Step(s, Lbl("get_last_history", k, 0, 0, FALSE))
-GetHistoryLength == Step(s, Lbl("get_history_length", "", 0, 0, FALSE))
-ComputeLogw    == Consistent(s) /\ Step(s, Lbl("compute_logw_and_logz", "", 0, 0, FALSE))
+GetHistoryIdx  == Getters /\ \E k \in Keys : \E i \in 1..Len(H(s, k)) : Step(s, Lbl("get_history", k, 0, i, FALSE))
+GetLastHistory == Getters /\ \E k \in Keys : Step(s, Lbl("get_last_history", k, 0, 0, FALSE))
+GetHistoryLength == Getters /\ Step(s, Lbl("get_history_length", "", 0, 0, FALSE))
+ComputeLogw    == Getters /\ Consistent(s) /\ Step(s, Lbl("compute_logw_and_logz", "", 0, 0, FALSE))
 
 SetCurrent     == \E k \in AK : \E t \in Tags : \E cp \in BOOLEAN :
                     Step(SetNew(s, k, t, cp), Lbl("set_current", k, t, 0, cp))
@@ -351,7 +351,7 @@ CallerScribbleList == \E l \in s.lext : s.lst[l] # <<>> /\
 CallerScribbleResDict == \E k \in RK : s.rheld /\ s.cache.on /\ s.cache.c[k] # 0 /\
                     Step([s EXCEPT !.cache.c[k] = 0], Lbl("scribble_resdict", k, 0, 0, FALSE))
 
-Next == \/ (Getters /\ (GetCurrent \/ GetHistory \/ GetHistoryIdx \/ GetLastHistory \/ GetHistoryLength \/ ComputeLogw))
+Next == \/ GetCurrent \/ GetHistory \/ GetHistoryIdx \/ GetLastHistory \/ GetHistoryLength \/ ComputeLogw
         \/ SetCurrent \/ SetCurrentHeld \/ SetCurrentBeta \/ UpdateCurrent \/ Commit
         \/ ComputeResults \/ ToDict \/ MakeDict \/ UpdateFromDict \/ FromDict \/ SaveState \/ LoadState
         \/ CallerScribble \/ CallerScribbleList \/ CallerScribbleResDict
